@@ -30,7 +30,7 @@ Spec == Init /\ [][Next]_vars
 Bound == TLCGet("level") <= Depth
 
 (* ---- C01: DDM refines the lifecycle contract ---- *)
-LC == INSTANCE Lifecycle WITH RestartTo <- 1, Incs <- {1}, HasRecs <- TRUE, EpochBound <- TRUE, RefRestart <- FALSE,
+LC == INSTANCE Lifecycle WITH ltab <- [restart |-> 1, incs |-> {1}, hasrecs |-> TRUE, epochbound |-> TRUE, refrestart |-> FALSE],
                               state <- st, warm <- (since >= cfg.nthr)
 LCSpec == LC!Spec
 TypeOK == LC!TypeOK
